@@ -23,6 +23,8 @@ Main theorems (namespace `Cooler.C15`)
   that existed still exists unchanged (`Sub fs fs'`), hence every collection reads as before under
   every name.  `copy_frame_new` — what is new lies under the destination's canonical location or is
   an empty intermediate group.  `mv_frame` — the same minus the source link's region.
+* `copy_overwrite_eq` — `overwrite` onto another existing file = the same operation on the file system
+  in which that file has been emptied (the one way `_copy` loses anything).
 * `mv_source_gone_partial` (inside one file, any links), `mv_source_gone_spec` (the specification,
   any files); `mv_source_gone_Statement Variant.current` is FALSE: `mv_source_gone_current_false`,
   `d4_counterexample`, and in general `mv_cross_eq_cp` / `mv_cross_file_keeps_source` (finding D4).
@@ -3120,6 +3122,46 @@ example :
       listing fs Variant.current "A" = .ok [["a"]] := by
   decide
 
+/-- the hypotheses of `copy_reads_equal` / `copy_frame` / `mv_reads_equal_plain` / `list_exact_history` are
+jointly satisfiable, and the theorems yield the expected concrete facts -/
+theorem wf_fsOne : WF fsOne := run_wf Variant.spec _ [] wf_nil
+
+example : Reads (cp fsOne Variant.current "A" ["x", "y"] "B" ["p", "q"] false).1 "B" ["p", "q"] 7 :=
+  copy_reads_equal wf_fsOne (by simp) (fun _ => by simp)
+    (rfl : copyOp fsOne Variant.current "A" ["x", "y"] "B" ["p", "q"] false false false false = (_, .ok))
+    ⟨0, by decide⟩
+
+example : Reads (ln fsOne Variant.current "A" ["x", "y"] "B" ["e"] true false).1 "B" ["e"] 7 :=
+  copy_reads_equal wf_fsOne (by simp) (fun _ => by simp)
+    (rfl : copyOp fsOne Variant.current "A" ["x", "y"] "B" ["e"] false false false true = (_, .ok))
+    ⟨0, by decide⟩
+
+example : Reads (cp fsOne Variant.current "A" ["x", "y"] "B" [] false).1 "B" [] 7 :=
+  copy_root_reads_equal wf_fsOne (by simp) (by decide) (by simp)
+    (rfl : copyOp fsOne Variant.current "A" ["x", "y"] "B" [] false false false false = (_, .ok))
+    ⟨0, by decide⟩
+
+theorem under_two {q : Path} {a b : String} (h : under q [a, b] = true) : q = [] ∨ q = [a] ∨ q = [a, b] := by
+  obtain ⟨r, hr⟩ := (under_iff _ _).1 h
+  match q, hr with
+  | [], _ => exact Or.inl rfl
+  | [x], hr => simp at hr; exact Or.inr (Or.inl (by rw [hr.1]))
+  | [x, y], hr => simp at hr; exact Or.inr (Or.inr (by rw [hr.1, hr.2.1]))
+  | x :: y :: z :: t, hr => simp at hr
+
+example : Reads (mv fsOne Variant.current "A" ["x", "y"] "A" ["m"] false).1 "A" ["m"] 7 := by
+  refine mv_reads_equal_plain wf_fsOne ?_ ?_
+    (rfl : mv fsOne Variant.current "A" ["x", "y"] "A" ["m"] false = (_, .ok)) ⟨0, by decide⟩
+  · intro q hq hne
+    rcases under_two hq with rfl | rfl | rfl
+    · exact absurd rfl hne
+    · exact ⟨_, _, rfl⟩
+    · exact ⟨_, _, rfl⟩
+  · intro q hq hne
+    cases q with
+    | nil => exact absurd rfl hne
+    | cons a q => simp [under] at hq
+
 /-! ### link-freeness is kept by every operation except `ln -s`: `list_exact` after any such history -/
 
 def LinkFreeFS (fs : FS) : Prop := ∀ f h, getFile fs f = some h → LinkFree h
@@ -3479,5 +3521,25 @@ theorem list_exact_history (v : Variant) (ops : List Op) (hops : ∀ op ∈ ops,
     p ∈ listCoolers (run v [] ops) f ↔ isCooler (run v [] ops) f p = true :=
   list_exact hg (run_wf v ops [] wf_nil f h hg)
     (run_lf v ops [] (fun f h hg => absurd hg (by simp [getFile])) hops f h hg) p
+
+/-! ### `overwrite` -/
+
+/-- `overwrite=True` between two different files (valid flags, source file present) is the same
+operation without `overwrite` on the file system in which the destination file has been replaced
+by an empty file: this is the only way `_copy` loses anything, and it loses exactly the old
+destination file. -/
+theorem copy_overwrite_eq {fs : FS} {v : Variant} {sf : String} {sp : Path} {df : String} {dp : Path}
+    {link rename soft : Bool} (hne : sf ≠ df)
+    (hflags : ((link && rename) || (link && soft) || (rename && soft)) = false)
+    (hsrc : (getFile fs sf).isSome) :
+    copyOp fs v sf sp df dp true link rename soft =
+      copyOp (setFile fs df emptyFile) v sf sp df dp false link rename soft := by
+  have hne' : ¬ df = sf := fun e => hne e.symm
+  cases hg : getFile fs sf with
+  | none => simp [hg] at hsrc
+  | some hh =>
+    unfold copyOp afterOpen
+    simp only [hflags, Bool.false_eq_true, if_false, getFile_setFile, hne, hne', hg, if_true, Option.isNone_some,
+      Bool.or_true, Bool.or_false, decide_false, Bool.and_false]
 
 end Cooler.C15
